@@ -106,6 +106,15 @@ func (c *Cluster) handleDeleteTopics(creq *clientReq) (kmsg.Response, error) {
 				sg.mu.Unlock()
 			}
 		}
+		// These observe c.data, so they must run after the topics are
+		// removed above: group target assignments are recomputed from a
+		// snapshot of the current topics, and the persisted topic state
+		// must not contain the deleted topics.
+		if len(toDeletes) > 0 {
+			c.notifyTopicChange()
+			c.refreshCompactTicker()
+			c.persistTopicsState()
+		}
 	}()
 	for _, rt := range req.Topics {
 		var topic string
@@ -143,12 +152,6 @@ func (c *Cluster) handleDeleteTopics(creq *clientReq) (kmsg.Response, error) {
 				watch.deleted()
 			}
 		}
-	}
-
-	if len(toDeletes) > 0 {
-		c.notifyTopicChange()
-		c.refreshCompactTicker()
-		c.persistTopicsState()
 	}
 
 	return resp, nil
